@@ -24,7 +24,7 @@ def run(ctx):
     ctx.floor('C18.histories', 300)
     ctx.floor('C18.reclamation_checks', 300)
     saved = ctx.deadline
-    ctx.deadline = time.time() + {'quick': 20, 'thorough': 250}[ctx.tier]
+    ctx.deadline = ctx.clock() + {'quick': 20, 'thorough': 250}[ctx.tier]
     w_hist.run_orders(ctx)
     ctx.deadline = saved
     w_hist.run_histories(ctx)
